@@ -414,6 +414,11 @@ def scan_unsynchronised_mutables(root="/repo/einx/_src"):
                         name = n.value.id
                     elif isinstance(n, ast.AugAssign) and isinstance(n.target, ast.Name):
                         name = n.target.id
+                    elif isinstance(n, ast.Call) and isinstance(n.func, ast.Name) and n.func.id == "exec":
+                        # exec(code, namespace): the namespace dict is written by the executed code
+                        for a in n.args[1:]:
+                            if isinstance(a, ast.Name) and aliases.get(a.id, a.id) in local:
+                                name = a.id
                     elif isinstance(n, ast.Global):
                         for g in n.names:
                             writes = [w for w in ast.walk(f) if isinstance(w, (ast.Assign, ast.AugAssign)) and any(isinstance(t, ast.Name) and t.id == g for t in (w.targets if isinstance(w, ast.Assign) else [w.target]))]
@@ -425,6 +430,101 @@ def scan_unsynchronised_mutables(root="/repo/einx/_src"):
                         if not any(x["file"] == os.path.relpath(p, "/repo") and x["function"] == f.name and x["object"] == name for x in found):
                             found.append({"file": os.path.relpath(p, "/repo"), "function": f.name, "object": name, "kind": local[name], "line": n.lineno})
     return found
+
+
+def scan_live_dict_iterations(root="/repo/einx/_src"):
+    """Iteration over a process-wide dict that OTHER code mutates at any time (sys.modules: every `import` in any
+    thread adds to it) without taking a snapshot first (list(...), tuple(...), sorted(...), .copy())."""
+    found = []
+    for d, _, files in os.walk(root):
+        for fn in sorted(files):
+            if not fn.endswith(".py"):
+                continue
+            p = os.path.join(d, fn)
+            try:
+                tree = ast.parse(open(p).read())
+            except SyntaxError:
+                continue
+            for f in ast.walk(tree):
+                if not isinstance(f, (ast.FunctionDef, ast.AsyncFunctionDef)):
+                    continue
+                for n in ast.walk(f):
+                    iters = []
+                    if isinstance(n, (ast.For, ast.AsyncFor)):
+                        iters.append(n.iter)
+                    elif isinstance(n, (ast.ListComp, ast.SetComp, ast.DictComp, ast.GeneratorExp)):
+                        iters.extend(g.iter for g in n.generators)
+                    for it in iters:
+                        src = ast.unparse(it)
+                        if src in ("sys.modules", "sys.modules.keys()", "sys.modules.items()", "sys.modules.values()"):
+                            if not any(x["file"] == os.path.relpath(p, "/repo") and x["function"] == f.name for x in found):
+                                found.append({"file": os.path.relpath(p, "/repo"), "function": f.name, "object": "sys.modules", "kind": "iteration over a live process-wide dict", "line": it.lineno})
+    return found
+
+
+ITER_REPLAY = r'''#!/venv/bin/python
+"""Replay (C10): thread A is paused while {function}() ({file}) iterates over sys.modules; thread B imports modules
+that were not imported yet (any einx call or user code may do that); A resumes."""
+import sys, threading
+sys.path.insert(0, "/repo")
+import numpy as np
+import einx
+FILE, FUNC = {file!r}, {function!r}
+a_in, b_done = threading.Event(), threading.Event()
+def tracer(frame, event, arg):
+    co = frame.f_code
+    if event == "call" and co.co_filename.endswith(FILE) and (co.co_name in ("<genexpr>", "<listcomp>") or co.co_name == FUNC):
+        return local
+    return tracer if event == "call" else None
+import collections
+hits = collections.Counter()
+LINES = {{i for i, l in enumerate(open("/repo/" + FILE).read().splitlines(), 1) if "sys.modules" in l}}
+def local(frame, event, arg):
+    if event == "line" and frame.f_lineno in LINES and not a_in.is_set():
+        hits[(frame.f_code.co_name, frame.f_lineno)] += 1
+        if hits[(frame.f_code.co_name, frame.f_lineno)] >= 3:  # the same line again and again: inside the iteration
+            a_in.set(); b_done.wait(20)
+    return local
+out = {{}}
+class Unknown:  # a tensor type no backend knows yet: the lookup has to scan for newly imported modules
+    pass
+def run_a():
+    sys.settrace(tracer)
+    try:
+        einx.add("a, a -> a", np.ones(2), np.ones(2), backend="no-such-backend")
+        out["A"] = "returned"
+    except Exception as e:
+        out["A"] = "raised " + type(e).__name__ + ": " + str(e).splitlines()[0][:80]
+    finally:
+        sys.settrace(None); a_in.set()
+def run_b():
+    a_in.wait(20)
+    import importlib
+    for name in ("wave", "sndhdr", "xdrlib", "mailbox", "imaplib", "nntplib", "poplib", "smtplib", "telnetlib", "ftplib", "cgi", "chunk", "aifc", "sunau", "pipes", "uu", "colorsys", "fractions", "statistics", "tabnanny", "symtable", "pyclbr", "filecmp", "sched", "cmd", "shelve", "dbm", "netrc", "plistlib", "zipapp"):
+        if name not in sys.modules:
+            try: importlib.import_module(name)
+            except Exception: pass
+    b_done.set()
+try:
+    einx.add("a, a -> a", np.ones(2), np.ones(2), backend="no-such-backend")
+except Exception as e:
+    serial = "raised " + type(e).__name__ + ": " + str(e).splitlines()[0][:80]
+ta, tb = threading.Thread(target=run_a), threading.Thread(target=run_b)
+ta.start(); tb.start(); ta.join(60); tb.join(60)
+print("serial outcome      :", serial)
+print("interleaved outcome :", out.get("A"))
+if out.get("A") != serial:
+    print("REPRODUCED: a lookup that overlaps with an import in another thread fails differently from any serial order"); sys.exit(1)
+print("NOT-REPRODUCED"); sys.exit(0)
+'''
+
+
+def write_iter_replay(cand):
+    os.makedirs(os.path.join(runner.REPLAY_DIR, PROP), exist_ok=True)
+    path = os.path.join(runner.REPLAY_DIR, PROP, f"live_iteration_{os.path.basename(cand['file'])[:-3]}_{cand['function']}.py")
+    with open(path, "w") as f:
+        f.write(ITER_REPLAY.format(file=cand["file"], function=cand["function"]))
+    return path
 
 
 TABLE_REPLAY = r'''#!/venv/bin/python
@@ -618,6 +718,21 @@ def main():
             else:
                 rep.inconclusive.append({"why": "shared object mutated without a lock, but no pair of pool calls shows a non-serial outcome", "object": cand})
         unsync_results.append(entry)
+    # iteration over sys.modules without a snapshot: reader (iterate) and writer (import in another thread) on one dict
+    live_results = []
+    for cand in scan_live_dict_iterations():
+        v, schedule, stats = bmc.context_stack_check(False, timeout_ms)
+        solver_s += stats["solver_s"]
+        entry = dict(cand, verdict=v, schedule=schedule)
+        if v == "sat":
+            path = write_iter_replay(cand)
+            ok, out = replay.run_script(path, timeout=300)
+            entry["replayed"] = ok
+            if ok:
+                rep.violation({"kind": "iteration-over-live-dict", "file": cand["file"], "function": cand["function"]}, path, f"{cand['function']}() ({cand['file']}:{cand['line']}) iterates over sys.modules while other threads may import\n{out[-700:]}")
+            else:
+                rep.inconclusive.append({"why": "iteration over sys.modules without snapshot; the gated replay did not show a non-serial outcome", "where": cand})
+        live_results.append(entry)
     shared = scan_shared_state()
     known_inventory = {"registry", "_thread_local", "_dependon"}
     uncovered = [s for s in shared if s["name"] not in known_inventory and s["kind"] not in ("threading.local", "threading.Lock", "threading.RLock")]
@@ -636,6 +751,7 @@ def main():
         "model_validation": {"real_vs_model_evaluations": n_val, "disagreements": len(problems)},
         "vacuity_twins": {"serial_only": tw, "no_locks": tw2, "context_stack_shared": tw3},
         "objects_mutated_in_functions_without_lock": unsync_results,
+        "iterations_over_live_process_wide_dicts": live_results,
         "tracing_context_stacks": {"from_ast": ctx, "observed_on_real_module": ctx_dyn, "model_checked": ctx_results},
         "module_level_mutable_objects": shared,
         "uncovered_shared_state": uncovered,
